@@ -103,7 +103,7 @@ Qed.
    count of retained ones is accurate, size shrinks by the removed ones, and neither the
    checked-out objects nor the capacity (permits, max_size, debt) are touched *)
 Lemma retain_spec c s t ds :
-  pcof s t = ORetain ds ->
+  pcof s t = ORetainL ds ->
   exists s', step c s (Step t) = Some s'
     /\ vec s' = select true (decisions ds (vec s)) (vec s)
     /\ size s' = size s - zlen (select false (decisions ds (vec s)) (vec s))
